@@ -211,6 +211,7 @@ class Engine:
         import tools.compiler  # noqa: F401
 
         fsim.install()
+        core.install_lock_seam(procs.repo_root())
         util.silence_antlr()
         lg = logging.getLogger("pymoca")
         lg.addHandler(logging.NullHandler())
